@@ -1,7 +1,342 @@
 import Model.Strings
+import Model.StringsTok
+import Proofs.Lemmas.StrPostfix
+import Proofs.Lemmas.StrRef
+import Proofs.Lemmas.StrShunt
+import Proofs.Lemmas.StrRound
+import Proofs.Lemmas.StrFormat
+import Proofs.Lemmas.StrTokenize
 /-!
-# C16 (placeholder until the proof agent's file arrives): the parser tables regenerated from the source
+# C16: printing an equation in the sympy format and parsing it back gives the same function
+
+Only the property theorems, the table-pinning `decide` theorems and non-vacuity examples live here; the
+proofs are in `Proofs/Lemmas/Str*.lean` (`StrTrees`, `StrPostfix`, `StrShunt`, `StrTokens`, `StrFormat` are
+core-only; `StrRef`, `StrRound` need Mathlib's `ℝ` through `MathSem`).
+
+Pipeline of the model (`Model/Strings.lean`): `parse = tokenize ; infixToPostfix ; postfixToCommands`,
+`format .sympy` prints row by row.  `Model/StringsTok.lean` adds the tree printer `sympyStr`, its token list
+`sympyToks`, the grammar `GE` and the re-associated parse tree `parseTree`.
+
+`val : String → ℝ` is an arbitrary interpretation of float literals (Python's `float`).
 -/
 namespace Bingo.C16
+open Bingo.Str Bingo.Str.Tables Gen.OpDefs
+
+/-! ## 0. the translator reported no problem -/
+
 theorem gen_ok : Gen.StringTables.problems = [] := by decide
+
+/-! ## 1. the hand tables of `Model/StringsTok.lean` are pinned to the generated tables -/
+
+/-- every key of `SYMPY_PRINT_MAP` is a unary node `n` named `f` whose template is `f({})`, `f` is one of the
+parser's `functions` and `operator_map` sends it back to `n`; or it is one of the six binary nodes -/
+theorem unName_pinned : SYMPY_PRINT_MAP.all (fun p =>
+    match unName p.1 with
+    | some f => p.2 == f ++ "({})" && functions.contains f && operator_map.lookup f == some p.1 &&
+        (binName p.1).isNone
+    | none => (binName p.1).isSome) = true := by decide
+
+/-- the six binary templates, literally -/
+theorem bin_templates :
+    SYMPY_PRINT_MAP.lookup ADDITION = some "{} + {}" ∧
+    SYMPY_PRINT_MAP.lookup SUBTRACTION = some "{} - ({})" ∧
+    SYMPY_PRINT_MAP.lookup MULTIPLICATION = some "({})*({})" ∧
+    SYMPY_PRINT_MAP.lookup DIVISION = some "({})/({})" ∧
+    SYMPY_PRINT_MAP.lookup POWER = some "({})**({})" ∧
+    SYMPY_PRINT_MAP.lookup SAFE_POWER = some "abs({})**({})" := by decide
+
+/-- the tokenizer rewrites `**` to `^` (and `)(` to `)*(`, which never occurs in a sympy string) -/
+theorem replacements_pinned : replacements = [(")(", ")*("), ("**", "^")] := by decide
+
+/-- the operator token of a binary node is an operator of the parser mapped back to the node
+(SAFE_POWER is printed with `abs(·)` and the POWER token) -/
+theorem binName_pinned :
+    binName ADDITION = some "+" ∧ binName SUBTRACTION = some "-" ∧ binName MULTIPLICATION = some "*" ∧
+    binName DIVISION = some "/" ∧ binName POWER = some "^" ∧ binName SAFE_POWER = some "^" ∧
+    operators.all (fun o => SYMPY_PRINT_MAP.any fun p =>
+      binName p.1 == some o && operator_map.lookup o == some p.1) = true ∧
+    operator_map.lookup "abs" = some ABS := by decide
+
+/-- every function name of the parser is the name of a unary node; operators and functions and the
+parentheses are pairwise different tokens -/
+theorem names_pinned :
+    functions.all (fun f => SYMPY_PRINT_MAP.any fun p => unName p.1 == some f) = true ∧
+    operators.all (fun o => !functions.contains o) = true ∧
+    (operators ++ functions).all (fun o => o != LPAREN && o != RPAREN) = true ∧
+    LPAREN = "(" ∧ RPAREN = ")" ∧ RIGHT_ASSOC = "^" ∧
+    precedence = [("+", 0), ("-", 0), ("*", 1), ("/", 1), ("^", 2)] := by decide
+
+/-- the same facts in the form the proofs use them (for arbitrary node numbers) -/
+theorem unName_spec {n : Int} {f : String} (h : unName n = some f) :
+    functions.contains f = true ∧ operators.contains f = false ∧ operator_map.lookup f = some n :=
+  ⟨(Round.unName_spec h).1, (Round.unName_spec h).2.1, (Round.unName_spec h).2.2.1⟩
+
+theorem binName_spec {n : Int} {o : String} (h : binName n = some o) :
+    operators.contains o = true ∧ (n = SAFE_POWER ∨ operator_map.lookup o = some n) :=
+  ⟨(Round.binName_spec h).1, (Round.binName_spec h).2.2.2⟩
+
+/-! ## A. the parser's output is a well-formed command array (for ALL postfix token lists) -/
+
+/-- every operator row references earlier rows only, terminal rows have non-negative parameters, CONSTANT rows
+index a collected constant, rows are pairwise distinct: `WFEval D c'.length s'` for every `D` above the
+variable indices.  `hnc` (no explicit `c_k` token) is needed for the constant bound only, see the
+counterexample below and `postfix_wf_general`. -/
+theorem postfix_wf (toks : List String) (s' : Stack) (c' : List String)
+    (h : postfixToCommands toks = .ok (s', c')) (hne : toks ≠ [])
+    (hnc : ∀ t ∈ toks, Post.isConstName t = false) (D : Nat)
+    (hD : ∀ c ∈ s', c.node = VARIABLE → c.p1 < D) :
+    WF.WFEval D c'.length s' ∧ s'.Nodup :=
+  Post.postfix_wf h hne hnc D hD
+
+/-- the same with the explicit bound `maxVar s'` -/
+theorem postfix_wf_maxVar (toks : List String) (s' : Stack) (c' : List String)
+    (h : postfixToCommands toks = .ok (s', c')) (hne : toks ≠ [])
+    (hnc : ∀ t ∈ toks, Post.isConstName t = false) :
+    WF.WFEval (Post.maxVar s') c'.length s' :=
+  (Post.postfix_wf h hne hnc _ (Post.lt_maxVar s')).1
+
+/-- with explicit `c_k` tokens: well-formed for every `L` above the constant indices -/
+theorem postfix_wf_general (toks : List String) (s' : Stack) (c' : List String)
+    (h : postfixToCommands toks = .ok (s', c')) (hne : toks ≠ []) (D L : Nat)
+    (hD : ∀ c ∈ s', c.node = VARIABLE → c.p1 < D) (hL : ∀ c ∈ s', c.node = CONSTANT → c.p1 < L) :
+    WF.WFEval D L s' ∧ s'.Nodup :=
+  Post.postfix_wf_general h hne D L hD hL
+
+/-- `hnc` cannot be dropped: `c_5` alone yields a CONSTANT row 5 and no constant -/
+example : postfixToCommands ["c_5"] = .ok ([⟨1, 5, 5⟩], []) ∧
+    ∀ D, ¬ WF.WFEval D ([] : List String).length [⟨1, 5, 5⟩] := by
+  refine ⟨rfl, fun D => ?_⟩
+  simp [WF.WFEval, WF.wf, WF.rowsOK, WF.rowOK, Ops.isTerminal, Ops.isArity2, Gen.OpDefs.isTerminalTbl,
+    Gen.OpDefs.isArity2Tbl, List.lookup, VARIABLE, CONSTANT]
+
+/-! ## B. `postfixToCommands` never silently yields a different function -/
+
+/-- For ALL non-empty postfix token lists (explicit `c_k` tokens included: they load constant `k` of the
+RETURNED constant list, exactly as the command array will be evaluated): if a command array is returned, the
+reference stack machine `Ref.refRun` (which knows nothing about command arrays, sharing or constant
+collection) ends with exactly one value, and that value is the value of the returned equation. -/
+theorem postfix_sound (val : String → ℝ) (x : List ℝ) (toks : List String) (s' : Stack)
+    (c' : List String) (hne : toks ≠ []) (h : postfixToCommands toks = .ok (s', c')) :
+    Ref.refRun x (c'.map val) val toks [] =
+      some [MathSem.den x (c'.map val) (ETree.ofStack s')] :=
+  Ref.postfix_sound val x toks s' c' hne h
+
+/-- the crux of B: despite sharing, the root is the last row whenever the final stack has one entry -/
+theorem root_is_last {toks : List String} {st' : PState} (h : postfixLoop toks {} = .ok st')
+    {j : Nat} (hs : st'.stack = [j]) : j + 1 = st'.cmds.length :=
+  (Post.postfixLoop_inv Post.PInv.init h).root_last hs
+
+/-- converse of B at the level of acceptance: the loop raises only where the reference machine does -/
+theorem postfix_complete (x cs : List ℝ) (val : String → ℝ) (toks : List String)
+    (R' : List (Option ℝ)) (h : Ref.refRun x cs val toks [] = some R') :
+    ∃ st', postfixLoop toks {} = .ok st' ∧ R'.length = st'.stack.length :=
+  Ref.loop_complete x cs val (st := {}) (R := []) rfl h
+
+/-! ## C. shunting-yard -/
+
+/-- the classical statement: on the precedence grammar without unary minus
+`E := T (("+"|"-") T)*, T := F (("*"|"/") F)*, F := P ("^" F)?, P := atom | "(" E ")" | fn "(" E ")"`
+(`GE.ok 0 e`: `e` is derivable from `E`) the output is the postfix form of the syntax tree -/
+theorem shunting_yard_grammar (e : GE) (h : e.ok 0 = true) : infixToPostfix e.toks = .ok e.post :=
+  shunt_grammar e h
+
+/-- the tokens of a printed tree are the infix tokens of the (re-associated) tree `parseTree` -/
+theorem sympyToks_eq_toks (consts : List String) (t : ETree) :
+    sympyToks consts t = (parseTree consts t).toks :=
+  Round.sympyToks_eq consts t
+
+theorem parseTree_in_grammar (consts : List String) (t : ETree) (h : printOK consts t = true) :
+    (parseTree consts t).ok 0 = true :=
+  Round.parseTree_ok consts t h
+
+theorem shunting_yard_sympy (consts : List String) (t : ETree) (h : printOK consts t = true) :
+    infixToPostfix (sympyToks consts t) = .ok (parseTree consts t).post :=
+  Round.shunting_yard_sympy consts t h
+
+/-- Python's `repr` of finite floats satisfies the condition on constant strings -/
+example : ["-2.5", "1e-05", "1e+20", "0.1"].all constTokOK = true := by decide
+
+/-! ## D. printing a tree and parsing its tokens gives the same function
+
+`hsize` is needed: the model's lists are unbounded, while the parser stores row indices in a C `long`
+(`np.array(command_array, dtype=int)`); a tree with 2^63 leaves would make `postfixToCommands` raise
+`OverflowError` (no concrete witness can be written down).  `hneg` is needed: see the counterexample. -/
+theorem roundtrip_tree (val : String → ℝ) (consts : List String) (t : ETree)
+    (h : printOK consts t = true) (hneg : ∀ n : Int, n < 0 → val (toString n) = (n : ℝ))
+    (hsize : (sympyToks consts t).length < 2 ^ 63) :
+    ∃ s' c', parseToks (sympyToks consts t) = .ok (s', c') ∧
+      ∀ x : List ℝ, MathSem.den x (c'.map val) (ETree.ofStack s') =
+        MathSem.den x (consts.map val) t :=
+  Round.roundtrip_tree val consts t h hneg hsize
+
+/-! ## E. the same for well-formed command arrays -/
+
+theorem roundtrip_stack (val : String → ℝ) (D L : Nat) (s : Stack) (consts : List String)
+    (hwf : WF.WFEval D L s) (hL : consts.length = L)
+    (hconsts : ∀ c ∈ consts, constTokOK c = true)
+    (hint : ∀ c ∈ s, (c.node = INTEGER ∨ c.node = VARIABLE) → fitsInt64 c.p1 = true)
+    (hneg : ∀ n : Int, n < 0 → val (toString n) = (n : ℝ))
+    (hsize : (sympyToks consts (ETree.ofStack s)).length < 2 ^ 63) :
+    ∃ s' c', parseToks (sympyToks consts (ETree.ofStack s)) = .ok (s', c') ∧
+      ∀ x : List ℝ, MathSem.den x (c'.map val) (ETree.ofStack s') =
+        MathSem.den x (consts.map val) (ETree.ofStack s) :=
+  Round.roundtrip_stack val D L s consts hwf hL hconsts hint hneg hsize
+
+/-- trees of well-formed stacks are printable -/
+theorem ofStack_printOK (D L : Nat) (s : Stack) (consts : List String) (hwf : WF.WFEval D L s)
+    (hL : consts.length = L) (hconsts : ∀ c ∈ consts, constTokOK c = true)
+    (hint : ∀ c ∈ s, (c.node = INTEGER ∨ c.node = VARIABLE) → fitsInt64 c.p1 = true) :
+    printOK consts (ETree.ofStack s) = true :=
+  Round.ofStack_printOK D L s consts hwf hL hconsts hint
+
+/-! ## F. the row-by-row printer prints the tree of the last row (DAG versus tree) -/
+
+theorem format_eq_tree (D L : Nat) (s : Stack) (consts : List String) (h : WF.WFEval D L s)
+    (hc : consts.length = L) :
+    Str.format .sympy s consts = .ok (sympyStr consts (ETree.ofStack s)) :=
+  Str.format_eq_tree D L s consts h hc
+
+/-! ## G. the tokenizer on a printed tree; the round trip at string level -/
+
+/-- Python's `repr` of finite floats satisfies the character-level condition on constant strings
+(non-empty, characters among `0-9 . e + -`, every `-` immediately followed by a digit) -/
+example : ["-2.5", "1e-05", "1e+20", "0.1"].all constCharsOK = true := by decide
+
+theorem tokenize_sympyStr (consts : List String) (t : ETree) (h : printOK consts t = true)
+    (hc : ∀ c ∈ consts, constCharsOK c = true) :
+    tokenize (sympyStr consts t) = .ok (sympyToks consts t) :=
+  Str.tokenize_sympyStr consts t h hc
+
+/-- `constCharsOK` cannot be dropped: `-inf` satisfies `constTokOK` but is re-tokenized as `-1 * inf` -/
+example : constTokOK "-inf" = true ∧
+    (tokenize (sympyStr ["-inf"] (.leaf CONSTANT 0))).toOption = some ["-1", "*", "inf"] := by decide
+
+theorem parse_of_tokenize {str : String} {toks : List String} (h : tokenize str = .ok toks) :
+    parse str = parseToks toks := by
+  simp only [parse, parseToks, h]
+  rfl
+
+/-- D at string level: `parse (sympyStr consts t)` is an equation with the same values as `t` -/
+theorem roundtrip_string (val : String → ℝ) (consts : List String) (t : ETree)
+    (h : printOK consts t = true) (hc : ∀ c ∈ consts, constCharsOK c = true)
+    (hneg : ∀ n : Int, n < 0 → val (toString n) = (n : ℝ))
+    (hsize : (sympyToks consts t).length < 2 ^ 63) :
+    ∃ s' c', parse (sympyStr consts t) = .ok (s', c') ∧
+      ∀ x : List ℝ, MathSem.den x (c'.map val) (ETree.ofStack s') =
+        MathSem.den x (consts.map val) t := by
+  rw [parse_of_tokenize (tokenize_sympyStr consts t h hc)]
+  exact roundtrip_tree val consts t h hneg hsize
+
+/-- C16 end to end: printing a well-formed command array in the sympy format and constructing an equation
+from that string succeeds and gives an equation that evaluates identically -/
+theorem roundtrip_format (val : String → ℝ) (D L : Nat) (s : Stack) (consts : List String)
+    (hwf : WF.WFEval D L s) (hL : consts.length = L)
+    (hconsts : ∀ c ∈ consts, constTokOK c = true ∧ constCharsOK c = true)
+    (hint : ∀ c ∈ s, (c.node = INTEGER ∨ c.node = VARIABLE) → fitsInt64 c.p1 = true)
+    (hneg : ∀ n : Int, n < 0 → val (toString n) = (n : ℝ))
+    (hsize : (sympyToks consts (ETree.ofStack s)).length < 2 ^ 63) :
+    ∃ str s' c', Str.format .sympy s consts = .ok str ∧ parse str = .ok (s', c') ∧
+      ∀ x : List ℝ, MathSem.den x (c'.map val) (ETree.ofStack s') =
+        MathSem.den x (consts.map val) (ETree.ofStack s) := by
+  obtain ⟨s', c', hp, hden⟩ := roundtrip_string val consts (ETree.ofStack s)
+    (ofStack_printOK D L s consts hwf hL (fun c hc => (hconsts c hc).1) hint)
+    (fun c hc => (hconsts c hc).2) hneg hsize
+  exact ⟨_, s', c', format_eq_tree D L s consts hwf hL, hp, hden⟩
+
+/-! ## H. documentation examples -/
+
+/-- known defect F11b: `-2**X_0` is read as `(-2.0)**X_0` (constant `-2`), not as `-(2**X_0)` -/
+example : parse "-2**X_0" = .ok ([⟨CONSTANT, 0, 0⟩, ⟨VARIABLE, 0, 0⟩, ⟨POWER, 0, 1⟩], ["-2"]) := rfl
+
+/-- an explicit `C_0` and the first float literal share constant slot 0: `C_0 + 2.5` is read as
+`C_0 + C_0` with `C_0 = 2.5` (the single row `(1,0,0)` is shared) -/
+example : parse "C_0 + 2.5" = .ok ([⟨CONSTANT, 0, 0⟩, ⟨ADDITION, 0, 0⟩], ["2.5"]) := rfl
+
+/-- re-association: `a + (b - c)` prints as `a + b - (c)` and is read as `(a + b) - c` -/
+example : sympyToks [] (.bin ADDITION (.leaf VARIABLE 0) (.bin SUBTRACTION (.leaf VARIABLE 1) (.leaf VARIABLE 2)))
+      = ["x_0", "+", "x_1", "-", "(", "x_2", ")"] ∧
+    parseTree [] (.bin ADDITION (.leaf VARIABLE 0) (.bin SUBTRACTION (.leaf VARIABLE 1) (.leaf VARIABLE 2)))
+      = .op "-" (.op "+" (.atom "x_0") (.atom "x_1")) (.paren (.atom "x_2")) := by decide
+
+/-! ## non-vacuity -/
+
+/-- `X_0 + -2.5 - (abs(-3)**(sin(X_1)))` -/
+def t1 : ETree :=
+  .bin ADDITION (.leaf VARIABLE 0)
+    (.bin SUBTRACTION (.leaf CONSTANT 0) (.bin SAFE_POWER (.leaf INTEGER (-3)) (.un SIN (.leaf VARIABLE 1))))
+
+example : sympyStr ["-2.5"] t1 = "X_0 + -2.5 - (abs(-3)**(sin(X_1)))" := by decide
+example : printOK ["-2.5"] t1 = true := by decide
+example : (sympyToks ["-2.5"] t1).length < 2 ^ 63 := by decide
+example : tokenize (sympyStr ["-2.5"] t1) = .ok (sympyToks ["-2.5"] t1) := rfl
+
+-- C on `t1`
+example : infixToPostfix (sympyToks ["-2.5"] t1) =
+    .ok ["x_0", "-2.5", "+", "-3", "abs", "x_1", "sin", "^", "-"] :=
+  (shunting_yard_sympy ["-2.5"] t1 (by decide)).trans rfl
+
+-- the stack the parser builds from the printed `t1` (negative integer becomes a constant,
+-- SAFE_POWER becomes POWER of ABS)
+example : parseToks (sympyToks ["-2.5"] t1) =
+    .ok ([⟨0, 0, 0⟩, ⟨1, 0, 0⟩, ⟨2, 0, 1⟩, ⟨1, 1, 1⟩, ⟨11, 3, 3⟩, ⟨0, 1, 1⟩, ⟨6, 5, 5⟩, ⟨10, 4, 6⟩,
+      ⟨3, 2, 7⟩], ["-2.5", "-3"]) := rfl
+
+-- D on `t1`: hypotheses are satisfiable, the conclusion is about a real parse result
+example (val : String → ℝ) (hneg : ∀ n : Int, n < 0 → val (toString n) = (n : ℝ)) :
+    ∃ s' c', parseToks (sympyToks ["-2.5"] t1) = .ok (s', c') ∧
+      ∀ x : List ℝ, MathSem.den x (c'.map val) (ETree.ofStack s') =
+        MathSem.den x (["-2.5"].map val) t1 :=
+  roundtrip_tree val ["-2.5"] t1 (by decide) hneg (by decide)
+
+/-- `hneg` cannot be dropped in D: with `val = 0` the printed `-3` comes back as the constant `0` -/
+example : printOK [] (.leaf INTEGER (-3)) = true ∧
+    parseToks (sympyToks [] (.leaf INTEGER (-3))) = .ok ([⟨CONSTANT, 0, 0⟩], ["-3"]) ∧
+    MathSem.den [] (["-3"].map fun _ => (0 : ℝ)) (ETree.ofStack [⟨CONSTANT, 0, 0⟩]) = some 0 ∧
+    MathSem.den [] (([] : List String).map fun _ => (0 : ℝ)) (.leaf INTEGER (-3)) = some (-3) := by
+  refine ⟨by decide, rfl, rfl, ?_⟩
+  simp [MathSem.den, MathSem.leaf]
+
+/-- `printOK` cannot be dropped in D: a negative VARIABLE index prints as `X_-1`, which is rejected -/
+example : (parseToks (sympyToks [] (.leaf VARIABLE (-1)))).toOption = none := by decide
+
+/-- `(x0 * c0) + (x0 * c0)`, row 2 shared; the parser rebuilds exactly this stack -/
+def s0 : Stack := [⟨0, 0, 0⟩, ⟨1, 0, 0⟩, ⟨4, 0, 1⟩, ⟨2, 2, 2⟩]
+
+example : WF.WFEval 1 1 s0 := by decide
+example : Str.format .sympy s0 ["0.1"] = .ok "(X_0)*(0.1) + (X_0)*(0.1)" :=
+  (format_eq_tree 1 1 s0 ["0.1"] (by decide) rfl).trans rfl
+example : parse "(X_0)*(0.1) + (X_0)*(0.1)" =
+    .ok ([⟨0, 0, 0⟩, ⟨1, 0, 0⟩, ⟨4, 0, 1⟩, ⟨1, 1, 1⟩, ⟨4, 0, 3⟩, ⟨2, 2, 4⟩], ["0.1", "0.1"]) := rfl
+
+-- end to end on `s0`
+example (val : String → ℝ) (hneg : ∀ n : Int, n < 0 → val (toString n) = (n : ℝ)) :
+    ∃ str s' c', Str.format .sympy s0 ["0.1"] = .ok str ∧ parse str = .ok (s', c') ∧
+      ∀ x : List ℝ, MathSem.den x (c'.map val) (ETree.ofStack s') =
+        MathSem.den x (["0.1"].map val) (ETree.ofStack s0) :=
+  roundtrip_format val 1 1 s0 ["0.1"] (by decide) rfl (by decide) (by decide) hneg (by decide)
+
+-- E on `s0`
+example (val : String → ℝ) (hneg : ∀ n : Int, n < 0 → val (toString n) = (n : ℝ)) :
+    ∃ s' c', parseToks (sympyToks ["0.1"] (ETree.ofStack s0)) = .ok (s', c') ∧
+      ∀ x : List ℝ, MathSem.den x (c'.map val) (ETree.ofStack s') =
+        MathSem.den x (["0.1"].map val) (ETree.ofStack s0) :=
+  roundtrip_stack val 1 1 s0 ["0.1"] (by decide) rfl (by decide) (by decide) hneg (by decide)
+
+-- A and B on the postfix form of `x_0 2.5 + x_0 2.5 + *` (sharing: three rows, two references to row 2)
+example : postfixToCommands ["x_0", "c_0", "+", "x_0", "c_0", "+", "*"] =
+    .ok ([⟨0, 0, 0⟩, ⟨1, 0, 0⟩, ⟨2, 0, 1⟩, ⟨4, 2, 2⟩], []) := rfl
+
+example : WF.WFEval 1 1 [⟨0, 0, 0⟩, ⟨1, 0, 0⟩, ⟨2, 0, 1⟩, ⟨4, 2, 2⟩] :=
+  (postfix_wf_general ["x_0", "c_0", "+", "x_0", "c_0", "+", "*"] _ _ rfl (by decide) 1 1
+    (by decide) (by decide)).1
+
+example : WF.WFEval 1 1 [⟨0, 0, 0⟩, ⟨1, 0, 0⟩, ⟨2, 0, 1⟩] :=
+  (postfix_wf ["x_0", "2.5", "+"] [⟨0, 0, 0⟩, ⟨1, 0, 0⟩, ⟨2, 0, 1⟩] ["2.5"] rfl (by decide)
+    (by decide) 1 (by decide)).1
+
+example (val : String → ℝ) (x0 : ℝ) :
+    Ref.refRun [x0] (["2.5"].map val) val ["x_0", "2.5", "+"] [] = some [some (x0 + val "2.5")] :=
+  (postfix_sound val [x0] ["x_0", "2.5", "+"] [⟨0, 0, 0⟩, ⟨1, 0, 0⟩, ⟨2, 0, 1⟩] ["2.5"] (by decide)
+    rfl).trans rfl
+
 end Bingo.C16
